@@ -13,11 +13,13 @@ package server6
 //@   trusted
 
 // Serve: one iteration per datagram (see server4): left only through the read error; an undecodable datagram starts no
-// handler; a decodable one starts exactly one, with the message decoded from this iteration's fresh buffer and the
+// handler; a decodable one starts exactly one, with the message decoded from this datagram (allocated after it was read; decoders retain nothing of the buffer) and the
 // sender as peer.
 //@ contract (*Server).Serve
 //@   requires s != nil && s.conn != nil && s.logger != nil && s.handler != nil
 //@   ensures[returns-on-read-error] result != nil
-//@   after `rbuf := make([]byte, 4096)` let S0 = spawned()
-//@   after `s.logger.Printf("Error parsing DHCPv6 request: %v", err)` assert[undecodable-not-dispatched] spawned() == S0
-//@   after `go s.handler(s.conn, peer, d)` assert[dispatched-once] spawned() == S0 + 1 && d != nil && fresh(rbuf)
+//@   after `n, peer, err := s.conn.ReadFrom(rbuf)` let S0 = spawned()
+//@   after `n, peer, err := s.conn.ReadFrom(rbuf)` let N0 = allocstamp()
+//@   after `s.logger.Printf("Error parsing DHCPv6 request: %v", err)` assert[undecodable-not-dispatched] spawned() == S0 && !dhcpv6.SpecAcceptV6(string(rbuf[:n]))
+//@   after `go s.handler(s.conn, peer, d)` assert[dispatched-once] spawned() == S0 + 1 && d != nil && dhcpv6.SpecAcceptV6(string(rbuf[:n]))
+//@   after `go s.handler(s.conn, peer, d)` assert[own-message] (typeIs(d, *dhcpv6.Message) || typeIs(d, *dhcpv6.RelayMessage)) && (typeIs(d, *dhcpv6.Message) ==> ref(d.(*dhcpv6.Message)) >= N0) && (typeIs(d, *dhcpv6.RelayMessage) ==> ref(d.(*dhcpv6.RelayMessage)) >= N0)
